@@ -44,13 +44,14 @@ Definition p_pack_one (w : world) (id : Z) (objs : list pobj) (do_fsync clean : 
   [EClose (HPack id); ECommit] ++
   (if clean then map (fun o => EUnlinkLoose (okey o)) objs else []).
 
-(* clean_storage (without duplicates): unlink every loose file whose key is indexed *)
-Definition p_clean (w : world) (order : list key) : list event :=
-  map EUnlinkLoose (filter (fun k => has_key (db w) k) order).
+(* clean_storage (without duplicates): optional VACUUM (a COMMIT before it - VACUUM cannot run inside a transaction - and one
+   after it; VACUUM itself does not change the rows), then unlink every loose file whose key is indexed *)
+Definition p_clean (w : world) (vacuum : bool) (order : list key) : list event :=
+  (if vacuum then [ECommit; ECommit] else []) ++ map EUnlinkLoose (filter (fun k => has_key (db w) k) order).
 
-(* delete_objects: loose files first, then one DELETE per chunk of keys, one COMMIT *)
+(* delete_objects: os.remove of the loose file is attempted for every key (FileNotFoundError ignored: a no-op event),
+   then the DELETE of the keys (one statement per chunk of _IN_SQL_MAX_LENGTH keys; one here), one COMMIT *)
 Definition p_delete (w : world) (ks : list key) : list event :=
-  map EUnlinkLoose (filter (fun k => match get_loose w k with Some _ => true | None => false end) ks) ++
-  [ESql (SDelete ks); ECommit].
+  map EUnlinkLoose ks ++ [ESql (SDelete ks); ECommit].
 
 End Programs.
